@@ -35,7 +35,7 @@ CLAIMED = {
          "spec), interval helpers, equality under single-field perturbations and validate() under injected corruptions (multi-tier textgrids)."),
  "C16": ("spec/MC_Audio.tla (edit mode) + spec/AudioImpl.tla + spec/AudioProp.tla + spec/Trace_Audio.tla", "5 (C16)",
          "TLC explores the audio state machine (recordings as sequences of distinct sample ids, every time on the quarter-sample grid, every "
-         "single edit from every recording of the universe) checking the transcription of Wav's slice arithmetic against the list-of-samples relations; every transition is replayed on "
+         "single edit from every recording of the universe, and at design level every history of two or three edits) checking the transcription of Wav's slice arithmetic against the list-of-samples relations; every transition is replayed on "
          "real Wav objects for several (rate, width), plus random recordings (also 60-400 samples at rates where rate*(k/rate) < k), live edit histories, query histories on one QueryWav, bytes/save/open round trips."),
  "C17": ("spec/MC_Audio.tla (read mode) + spec/AudioImpl.tla (invertIntervalList, readFramesAtTimes) + spec/AudioProp.tla", "5 (C17)",
          "TLC enumerates every keep/delete interval list on the quarter-sample grid x replacement and checks the transcription against the "
